@@ -61,6 +61,56 @@ class TagInterp(Interp):
             else:
                 path.tags[k] = tag
             self.sem._pending = None
+        # enum variants with fields (`Outcome::Completed { rows_affected }`): what is known about each field travels with the value and comes
+        # back when the field is read in a match arm
+        if lhs is not None and rv is not None and not lhs.get('p'):
+            base = (body.id, lhs['l'])
+            stores = (path.tags, path.num, path.memo)
+            for d_ in stores:
+                for k_ in [k_ for k_ in d_ if isinstance(k_, tuple) and len(k_) == 4 and k_[:2] == base and k_[2] == 'vf']:
+                    del d_[k_]
+            src = op_place(rv['op']) if rv['k'] == 'use' else (rv.get('pl') if rv['k'] in ('ref', 'cfd') else None)
+            if rv['k'] == 'agg' and rv.get('ak') == 'adt' and rv.get('ops') and str(path.tags.get(base, '')).startswith('evf:'):
+                names = rv.get('fields') or []
+                for i, o in enumerate(rv['ops']):
+                    keys = [i] + ([names[i]] if i < len(names) else [])
+                    pl = op_place(o)
+                    vals = {}
+                    if pl is not None and not pl.get('p'):
+                        sk = (body.id, pl['l'])
+                        if sk in path.tags:
+                            vals[0] = path.tags[sk]
+                        if sk in path.num:
+                            vals[1] = path.num[sk]
+                        if body.locals[pl['l']] == 'bool':
+                            v = self.bool_value(path, body, pl['l'])[0]
+                            if v is not None:
+                                vals[2] = v
+                    elif isinstance(o, dict) and 'int' in o:
+                        if o.get('ty') == 'bool':
+                            vals[2] = o['int'] != '0'
+                        else:
+                            vals[1] = '0' if o['int'] == '0' else '+'
+                    for kk in keys:
+                        for j, v in vals.items():
+                            stores[j][base + ('vf', kk)] = v
+            elif src is not None and all(e == '*' for e in src.get('p', [])):
+                sk = (body.id, src['l'])
+                for d_ in stores:
+                    for k_, v in [(k_, v) for k_, v in d_.items() if isinstance(k_, tuple) and len(k_) == 4 and k_[:2] == sk and k_[2] == 'vf']:
+                        d_[base + k_[2:]] = v
+            elif src is not None:
+                pp = [e for e in src.get('p', []) if e != '*']
+                if len(pp) == 2 and pp[0].startswith('d:') and pp[1].startswith('f:'):
+                    f = pp[1][2:]
+                    for kk in ([int(f)] if f.isdigit() else []) + [f]:
+                        sk = (body.id, src['l'], 'vf', kk)
+                        if sk in path.tags:
+                            path.tags[base] = path.tags[sk]
+                        if sk in path.num:
+                            path.num[base] = path.num[sk]
+                        if sk in path.memo and body.locals[lhs['l']] == 'bool':
+                            path.memo[base] = path.memo[sk]
 
 
 class StdSem(Semantics):
@@ -202,6 +252,8 @@ class StdSem(Semantics):
         tag0 = path.tags.get((body.id, src0['l'])) if src0 and all(e == '*' for e in src0.get('p', [])) else None
         if tag0 and tag0.startswith('ev:' + enum + '::'):
             return [tag0[len('ev:' + enum + '::'):]]
+        if tag0 and tag0.startswith('evf:' + enum + '::'):
+            return [tag0[len('evf:' + enum + '::'):]]
         if enum in (OPT, RES, CF):
             src = term.get('src')
             tag = path.tags.get((body.id, src['l'])) if src and not src.get('p') else None
@@ -234,6 +286,10 @@ class StdSem(Semantics):
             if not rv.get('ops') and adt not in (OPT, RES, CF) and rv.get('var') and self.variant_index(adt, rv['var']) is not None:
                 # a field-less variant of an enum: the value is the variant (`Level::Signed`); ordered comparisons and matches on it are decided
                 self._pending = (k, 'ev:%s::%s' % (adt, rv['var']))
+                return
+            if rv.get('ops') and adt not in (OPT, RES, CF) and rv.get('var') and adt.split('::')[0] == (self.crate or '') and self.variant_index(adt, rv['var']) is not None:
+                # a variant with fields of one of the crate's own enums: matches on it are decided, its fields keep what is known about them
+                self._pending = (k, 'evf:%s::%s' % (adt, rv['var']))
                 return
             if adt in (OPT, RES) and len(rv.get('ops', [])) == 1:
                 v = self.op_bool(interp, path, body, rv['ops'][0])
@@ -419,6 +475,10 @@ class StdSem(Semantics):
                     pl_ = op_place(term['args'][i])
                     if self.whole(pl_) and (body.id, pl_['l']) in path.num:
                         sub.num[(cb.id, 1 + i)] = path.num[(body.id, pl_['l'])]        # counters travel with the call too
+                    if self.whole(pl_):
+                        for d0, d1 in ((path.tags, sub.tags), (path.num, sub.num), (path.memo, sub.memo)):
+                            for k_, v_ in [(k_, v_) for k_, v_ in d0.items() if isinstance(k_, tuple) and len(k_) == 4 and k_[:2] == (body.id, pl_['l']) and k_[2] == 'vf']:
+                                d1[(cb.id, 1 + i) + k_[2:]] = v_
                 self.depth += 1
                 try:
                     outs = interp.run(cb, None, path=sub)
@@ -434,6 +494,11 @@ class StdSem(Semantics):
                         t = p.tags.get((cb.id, 0))
                         if t:
                             p.tags[dk] = t
+                        for d0 in (p.tags, p.num, p.memo):
+                            for k_, v_ in [(k_, v_) for k_, v_ in d0.items() if isinstance(k_, tuple) and len(k_) == 4 and k_[:2] == (cb.id, 0) and k_[2] == 'vf']:
+                                d0[dk + k_[2:]] = v_
+                        if (cb.id, 0) in p.num:
+                            p.num[dk] = p.num[(cb.id, 0)]
                         v, _, _ = interp.bool_value(p, cb, 0)
                         if v is not None and body.locals[d['l']] == 'bool':
                             p.memo[dk] = v
